@@ -171,6 +171,57 @@ def jac_newparams_nd(cx, which="jac"):
     return "ok"
 
 
+def jac_newparams_module(cx, which="jac"):
+    """a parameter HELD BY THE MODULE is among the operator's tensors: replacing it through uselinopparams must be followed by
+    the products, and the module must hold its own Parameter again afterwards"""
+    x = cx.sym("x", (2,), requires_grad=True)
+    A = cx.sym("A", (2, 2), requires_grad=True)
+    s = cx.sym("s", (), requires_grad=True)
+    mod = Mod(A)
+    v = cx.sym("v", (2,))
+    u = cx.sym("u", (2,))
+    x2 = cx.sym("x2", (2,), requires_grad=True)
+    A2 = cx.sym("A2", (2, 2), requires_grad=True)
+    s2 = cx.sym("s2", (), requires_grad=True)
+    if which == "jac":
+        op = jac(mod.forward, (x, s), idxs=0)
+        dense = lambda x_, A_, s_: _dense_jac(torch.matmul(A_, x_ * x_) + s_ * x_, x_)
+    else:
+        sc = lambda x_, A_, s_: (x_ * (torch.matmul(A_, x_ * x_) + s_ * x_)).sum()
+
+        class ModS(torch.nn.Module):
+            def __init__(self, A_):
+                super().__init__()
+                self.A = torch.nn.Parameter(A_)
+
+            def forward(self, x_, s_):
+                return sc(x_, self.A, s_)
+        mod = ModS(A)
+        op = hess(mod.forward, (x, s), idxs=0)
+
+        def dense(x_, A_, s_):
+            g, = torch.autograd.grad(sc(x_, A_, s_), x_, create_graph=True)
+            return _dense_jac(g, x_)
+    old = op.getlinopparams()
+    held = mod.A
+    cx.claim_true("operator parameters: the point, the explicit parameter and the module's parameter", len(old) == 3,
+                  detail=str(len(old)))
+    J = dense(x, held, s)
+    cx.claim_eq("mv at the construction point", op.mv(v), torch.matmul(J, v))
+    new = [x2, s2, A2]
+    if len(old) == 3:
+        # same order as getlinopparams: identify the positions by shape
+        new = [{(2,): x2, (): s2, (2, 2): A2}[tuple(p.shape)] for p in old]
+    J2 = dense(x2, A2, s2)
+    with op.uselinopparams(*new):
+        cx.claim_eq("mv with all tensors replaced", op.mv(v), torch.matmul(J2, v))
+        cx.claim_eq("rmv with all tensors replaced", op.rmv(u), torch.matmul(J2.transpose(-2, -1), u))
+    cx.claim_true("the module holds its own Parameter again", mod.A is held and isinstance(mod.A, torch.nn.Parameter)
+                  and list(dict(mod.named_parameters()).keys()) == ["A"])
+    cx.claim_eq("mv after restore", op.mv(v), torch.matmul(J, v))
+    return "ok"
+
+
 def _phi(x, A, s):
     # scalar function with a non-trivial Hessian in x, A and s
     return (x * torch.matmul(A * A, x * x)).sum() + s * s * (x[0] * x[1]) + s * A[0, 1]
@@ -242,6 +293,8 @@ def configs(tier):
     add("jac/newparams", jac_newparams)
     add("jac/newparams/nondiff_args_first", jac_newparams_nd, which="jac")
     add("hess/newparams/nondiff_args_first", jac_newparams_nd, which="hess")
+    add("jac/newparams/module_held", jac_newparams_module, which="jac")
+    add("hess/newparams/module_held", jac_newparams_module, which="hess")
     add("hess/int0", hess_products, idxs=0)
     add("hess/int0/batch2", hess_products, idxs=0, bshape=(2,))
     add("hess/list01", hess_products, idxs=[0, 1])
